@@ -374,6 +374,30 @@ func c06CheckSignature(p *Prog, c *Check, fl sigFlavour) {
 		return
 	}
 	c.Ok(rule, key, p.Rel(fn.Pos()), shortFn(fn), "returns true only if recovered signer == address", used...)
+	// "changing any signature invalidates it": public-key recovery accepts the second encoding of every
+	// ECDSA signature ((r, N-s, v^1) recovers the same address), so the signature must be required to
+	// be the canonical one (low s, v in {0,1}, 65 bytes) before it is used
+	okCanon, whyCanon := false, "no check of the canonical form of the signature (crypto.ValidateSignatureValues(v, r, s, true)) dominates the accepting return: for every accepted signature the second encoding (r, N-s, v^1) is accepted too, so a signature in a keys message can be changed without invalidating the message"
+	if _, has := findAtom(sum, "ValidateSignatureValues(...) == true", Binds{}); has {
+		for _, ci := range callsTo(fn, "crypto.ValidateSignatureValues") {
+			args := ci.Common().Args
+			if len(args) != 4 {
+				continue
+			}
+			fromSig := true
+			for _, a := range args[:3] {
+				if !strings.Contains(fi.T(a).s, b["sig"].s) {
+					fromSig = false
+				}
+			}
+			if fi.T(args[3]).s == "true" && fromSig {
+				okCanon = true
+			} else {
+				whyCanon = "ValidateSignatureValues is not applied to (v, r, s) of this signature with the low-s requirement switched on"
+			}
+		}
+	}
+	c.Result(okCanon, rule, shortFn(fn)+":canonical", p.Rel(fn.Pos()), shortFn(fn), "signature form", whyCanon, "ValidateSignatureValues(sig[64], r, s, true) == true")
 }
 
 func c06Callers(p *Prog, c *Check, accept string) {
